@@ -236,6 +236,15 @@ func c18Round(c *run.Ctx, idx uint64) {
 			}
 		}
 		sh.inputs = append(sh.inputs, b)
+		// and one that differs in its viewBox only (1-byte coordinates)
+		for _, in := range sh.inputs {
+			if len(in) > 11 && in[4] == 0x02 && in[5] == 0x0a && in[6] == 0x00 && in[7]&1 == 0 && (in[7]^0x04) <= in[9] {
+				v := append([]byte(nil), in...)
+				v[7] ^= 0x04
+				sh.inputs = append(sh.inputs, v)
+				break
+			}
+		}
 	}
 	if r.Chance(1, 3) {
 		// a malformed input shared by everybody
@@ -324,6 +333,21 @@ func c18Round(c *run.Ctx, idx uint64) {
 	})
 	if !ok {
 		return
+	}
+	// A canonical probe list over the round's inputs, evaluated serially: the
+	// three repeats of a workload run in different worker processes (with
+	// different histories) and must agree on it.
+	{
+		h := sha256.New()
+		for in := range sh.inputs {
+			for kind := 0; kind < nKinds18; kind++ {
+				for v := uint64(0); v < 2; v++ {
+					d := task18(kind, in, sh, v)
+					h.Write(d[:])
+				}
+			}
+		}
+		c.Digest(fmt.Sprintf("workload-%d", idx/3), fmt.Sprintf("%x", h.Sum(nil)[:12]))
 	}
 	c.Count("rounds", 1)
 	c.Count("globals_hash_checks", 1)
